@@ -30,6 +30,8 @@ type diffSpec struct {
 	Runner func(p *oracle.Prog) twin.Result
 	Assume []string
 	Level  string
+	// Classic (optional) selects the programs of this corpus that lie inside the classic interpreter's documented subset (C38).
+	Classic func(p *oracle.Prog) bool
 }
 
 type diffCase struct {
